@@ -19,7 +19,8 @@ NSHARDS = 16
 POOL = ['password', 'Pass word', ' lead', 'trail ', '  two  ', 'пароль', 'café', '$HEX[41', 'x$HEX[41]', '$HEX[zz]', '12 abc', '7', 'a]', '$HEX[4142]', ' $HEX[41]', '$HEX[41]x', '$HEX[4142] ',
         '   ',      # a password that is nothing but blanks is a password (only the empty line is not)
         '\ufeffpw',
-        'e\u0301\u212b']      # a decomposed letter and a compatibility character (ANGSTROM SIGN): text is taken as it is written, not normalised      # U+FEFF as the first character of a password: a byte-order mark only at the very start of a utf-16 / utf-32 file, a character everywhere else
+        'e\u0301\u212b',
+        '\u4f60\u597d1', '\u00e9a']      # first byte E4 in utf-8 / E9 in latin-1: hex digits that are also letters of the $HEX[ prefix      # a decomposed letter and a compatibility character (ANGSTROM SIGN): text is taken as it is written, not normalised      # U+FEFF as the first character of a password: a byte-order mark only at the very start of a utf-16 / utf-32 file, a character everywhere else
 JUNK = [('blank', b''), ('tab', b'ab\tcd'), ('nel', 'ab\u0085cd'), ('ls', 'ab\u2028cd'), ('ps', 'ab\u2029cd'),
         ('undecodable', {'utf-8': b'ab\xff\xfecd', 'cp1251': b'ab\x98cd'}), ('broken_hex', b'$HEX[4g]'), ('odd_hex', b'$HEX[414]'),
         # well-formed hex whose bytes are not text in the file's encoding: cut inside a multi-byte character, a lone continuation byte, an invalid byte
@@ -134,6 +135,14 @@ def variants(seq, enc):
                 nlb = nl.decode('ascii').encode(piece)
                 yield ('%s %s hex=%s' % (nl_name, 'prefixcount' if prefix else 'repeated', ''.join('H' if h else 'p' for h in mask)),
                        BOM.get(enc, b'') + nlb.join(lines) + nlb, prefix)
+                if all(mask) and nl_name == 'LF':
+                    # the same file with the hex digits in capitals (both spellings are hex)
+                    up = []
+                    for ln in lines:
+                        t = ln.decode(piece)
+                        k = t.find('$HEX[')
+                        up.append((t[:k + 5] + t[k + 5:-1].upper() + ']').encode(piece))
+                    yield ('%s %s hex=%s capitals' % (nl_name, 'prefixcount' if prefix else 'repeated', 'H' * n), BOM.get(enc, b'') + nlb.join(up) + nlb, prefix)
 
 
 def read_all(TFI, path, enc, prefix):
